@@ -112,6 +112,20 @@ def run(ctx, model_ok=True, proofs_broken=False):
         c = rng.choice(CFGS) if rng.random() < 0.5 else "-"
         sc = ["urlenc %s %s" % (c, chunk_str(p)) for p in chunkings(s, rng, extra_random=3)]
         scripts.append(sc); meta.append((c, s))
+    # distilled coverage corpus: each found (configuration, chunking) is replayed together with the unsplit string and the standard chunkings
+    for l in lib.load_fuzz_lines(("urlenc ",)):
+        t = l.split(" ")
+        if len(t) != 3 or t[2] == "!":
+            continue
+        try:
+            parts = [bytes.fromhex(x) if x != "-" else b"" for x in t[2].split("|")]
+        except ValueError:
+            continue
+        s = b"".join(parts)
+        if len(s) > 60:
+            continue
+        sc = ["urlenc %s %s" % (t[1], chunk_str(p)) for p in chunkings(s, rng)] + [l]
+        scripts.append(sc); meta.append((t[1], s))
     corpus = lib.load_corpus("C15")
     if model_ok:
         nlines, disagreements, c_outs, san = lib.corr_scripts(ctx, corpus + scripts, "urlenc", batch=60000)
